@@ -318,6 +318,16 @@ func runWorker(master uint64, worker, workers, scheds, maxProgs int, budget floa
 		res.LastIndex = idx
 		wseed := simrt.Derive(master, 0x10, uint64(idx))
 		w := genWorkload(wseed, deep)
+		scheds := scheds
+		seqOrders := 4
+		for _, ops := range w.Tasks {
+			for _, o := range ops {
+				if o.Kind == "fill" {
+					// several hundred first uses per execution: fewer executions of this workload
+					scheds, seqOrders = 3, 2
+				}
+			}
+		}
 		prep, warm := prepareAll(w)
 		st.Workloads++
 		st.ByCodec[w.Codec]++
@@ -421,7 +431,7 @@ func runWorker(master uint64, worker, workers, scheds, maxProgs int, budget floa
 		if len(pend) > 0 && (pend[len(pend)-1].r.Deadlock || pend[len(pend)-1].r.Capped) {
 			adm = &Admissible{} // leaked goroutines: no further executions in this process
 		} else {
-			adm = computeAdmissible(w, prep, warm, wseed, 4)
+			adm = computeAdmissible(w, prep, warm, wseed, seqOrders)
 			st.SeqOrders += adm.orders + w.NumOps()
 		}
 		if adm.SeqViolation != nil {
